@@ -23,15 +23,14 @@ def build_sum_amplitude(dg, dec_chain, data):
 
 def build_amp_matrix(dec, data, weight=None):
     hij = []
-    used_chains = dec.chains_idx
     index = []
-    for k, i in enumerate(dec):
-        dec.set_used_chains([k])
-        tmp = []
-        for j, amp in enumerate(build_sum_amplitude(dec, i, data)):
-            tmp.append(amp)
-        hij.append(tmp)
-    dec.set_used_chains(used_chains)
+    with dec.keep_used_chains():
+        for k, i in enumerate(dec):
+            dec.set_used_chains([k])
+            tmp = []
+            for j, amp in enumerate(build_sum_amplitude(dec, i, data)):
+                tmp.append(amp)
+            hij.append(tmp)
     # print([i.shape for i in hij.values()])
     # print([[j.shape for j in i] for i in hij])
     return index, hij
@@ -104,14 +103,13 @@ def build_sum_angle_amplitude(dg, dec_chain, data):
 
 def build_angle_amp_matrix(dec, data, weight=None):
     hij = []
-    used_chains = dec.chains_idx
-    for k, i in enumerate(dec):
-        dec.set_used_chains([k])
-        tmp = []
-        for j, amp in enumerate(build_sum_angle_amplitude(dec, i, data)):
-            tmp.append(amp)
-        hij.append(tmp)
-    dec.set_used_chains(used_chains)
+    with dec.keep_used_chains():
+        for k, i in enumerate(dec):
+            dec.set_used_chains([k])
+            tmp = []
+            for j, amp in enumerate(build_sum_angle_amplitude(dec, i, data)):
+                tmp.append(amp)
+            hij.append(tmp)
     return list(dec), hij
 
 
